@@ -59,6 +59,17 @@ package completenesschecking
 //@   loop 2 invariant -1 <= rangeindex && rangeindex < len(actionResult.OutputDirectories) && qAdds >= old(qAdds) + len(actionResult.OutputFiles) + 2 * len(actionResult.OutputDirectories) + 2
 //@         && baGets(ba.contentAddressableStorage) == old(baGets(ba.contentAddressableStorage)) + rangeindex + 1
 //@         && unchanged(ba.contentAddressableStorage) && unchanged(len(actionResult.OutputFiles)) && unchanged(len(actionResult.OutputDirectories))
+//@   loop 2 invariant [tree-budget-only-shrinks] remainingTreeSizeBytes <= ba.maximumTotalTreeSizeBytes
+//@         && (ba.maximumTotalTreeSizeBytes >= 0 ==> remainingTreeSizeBytes >= 0)
+//@         && unchanged(ba.maximumTotalTreeSizeBytes)
+
+// The decorator works with the limits it was configured with: the constructor
+// stores them as given (a larger tree budget than configured would let
+// oversized results through).
+//@ func NewCompletenessCheckingBlobAccess
+//@   ensures [limits-taken-as-configured] result != nil && typeis(result, "*completenesschecking.completenessCheckingBlobAccess")
+//@         && result.maximumTotalTreeSizeBytes == maximumTotalTreeSizeBytes && result.maximumMessageSizeBytes == maximumMessageSizeBytes
+//@         && result.batchSize == batchSize && result.contentAddressableStorage == contentAddressableStorage && result.BlobAccess == actionCache
 
 //@ func (*completenessCheckingBlobAccess).Get
 //@   requires ba.BlobAccess != nil && ba.contentAddressableStorage != nil
